@@ -7,6 +7,7 @@ input (any rune list, any classification) — by induction over the input.
 -/
 import BW.Model.BqlLex
 import BW.Proofs.Lexer
+import BW.Proofs.LexPrinted
 
 namespace BW.Props.C16
 open BW.Model BW.Generated BW.Proofs.Lexer
@@ -118,6 +119,79 @@ def exSpace : Rune := { cp := 32, bytes := [32], letter := false, digit := false
 example : PlainSpace exSpace := by
   refine ⟨rfl, rfl, rfl, by decide, by decide, by decide, by decide, by decide⟩
 
+/-! ### The printed form of a value is one token carrying exactly that text -/
+
+open BW.Proofs.LexPrinted in
+/-- `?name`. -/
+theorem printed_binding_is_one_token (q : Rune) (name : List Rune) (hq : q.cp = 63) (hqd : q.digit = false)
+    (hn : ∀ x ∈ name, isNameRune x = true) :
+    lex bqlLex (q :: name) = [(.BINDING, q :: name), (.EOF, [])] :=
+  lex_binding bqlLex q name hq hqd hn
+
+open BW.Proofs.LexPrinted in
+/-- `/type<id>`: the type holds no `<`, `>`, `\\`; the ID no `<`, `>` (what `node.NewID` accepts — backslashes
+    anywhere, also last). -/
+theorem printed_node_is_one_token (sl lt gt : Rune) (ty id : List Rune)
+    (hsl : sl.cp = 47) (hsd : sl.digit = false) (hlt : lt.cp = 60) (hgt : gt.cp = 62)
+    (hty : ∀ x ∈ ty, x.cp ≠ 60 ∧ x.cp ≠ 62 ∧ x.cp ≠ 92) (hid : ∀ x ∈ id, x.cp ≠ 60 ∧ x.cp ≠ 62) :
+    lex bqlLex (sl :: (ty ++ lt :: (id ++ [gt]))) = [(.NODE, sl :: (ty ++ lt :: (id ++ [gt]))), (.EOF, [])] :=
+  lex_node bqlLex sl lt gt ty id hsl hsd hlt hgt hty hid
+
+open BW.Proofs.LexPrinted in
+/-- `_:name`. -/
+theorem blank_node_is_one_token (u c l : Rune) (name : List Rune) (hu : u.cp = 95) (hud : u.digit = false)
+    (hc : c.cp = 58) (hl : l.letter = true) (hn : ∀ x ∈ name, isNameRune x = true) :
+    lex bqlLex (u :: c :: l :: name) = [(.BLANK_NODE, u :: c :: l :: name), (.EOF, [])] :=
+  lex_blank bqlLex u c l name hu hud hc hl hn
+
+open BW.Proofs.LexPrinted in
+/-- `"id"@[anchor]` and `"id"@[lo,hi]`: the printed ID (`%q`) holds no `"` — plain runes, `\\\\` pairs and
+    other escapes — the anchor part no `]` and at most one comma: PREDICATE without a comma, PREDICATE_BOUND with
+    one. (Before ed4a530 an ID ending with a backslash was refused: `PBody.pair` is what the repair added.) -/
+theorem printed_predicate_is_one_token (q q2 at_ lb rb : Rune) (body anchor : List Rune)
+    (hq : Delim q 34) (hqd : q.digit = false) (hq2 : Delim q2 34) (hat : Delim at_ 64) (hlb : Delim lb 91) (hrb : rb.cp = 93)
+    (hbody : PBody body) (hok : ∀ r ∈ body, RuneOK r) (ha : ∀ x ∈ anchor, x.cp ≠ 93) (hc : commaCount anchor ≤ 1) :
+    lex bqlLex (q :: (body ++ q2 :: at_ :: lb :: (anchor ++ [rb]))) =
+      [(if commaCount anchor == 0 then .PREDICATE else .PREDICATE_BOUND, q :: (body ++ q2 :: at_ :: lb :: (anchor ++ [rb]))), (.EOF, [])] :=
+  lex_predicate bqlLex q q2 at_ lb rb body anchor hq hqd hq2 hat hlb hrb hbody hok ha hc
+
+open BW.Proofs.LexPrinted in
+/-- `"value"^^type:T`: the value holds no `"` and does not end with a backslash — exactly the boundary of known
+    finding D36 — and `T` is a literal type name in any letter case. -/
+theorem printed_literal_is_one_token (q q2 : Rune) (v dl ty : List Rune)
+    (hq : Delim q 34) (hqd : q.digit = false) (hq2 : Delim q2 34)
+    (hv : ∀ x ∈ v, RuneOK x ∧ x.cp ≠ 34) (hl : NoTrailingBackslash v)
+    (hdl : (q2 :: dl).map (·.lower) = [34, 94, 94, 116, 121, 112, 101, 58]) (hdb : runesBytes (q2 :: dl) = litTypePat)
+    (hty : ∀ x ∈ ty, (x.letter || x.digit) = true) (htb : (34 : UInt8) ∉ runesBytes ty)
+    (hknown : bqlLex.litTypes.contains (lowerCps ty) = true) :
+    lex bqlLex (q :: (v ++ q2 :: (dl ++ ty))) = [(.LITERAL, q :: (v ++ q2 :: (dl ++ ty))), (.EOF, [])] :=
+  lex_literal bqlLex q q2 v dl ty hq hqd hq2 hv hl hdl hdb hty htb hknown
+
+/-- ASCII runes as Go classifies them (for the non-vacuity examples). -/
+def ar (c : Nat) : Rune :=
+  { cp := c, bytes := [c.toUInt8], letter := decide ((65 ≤ c ∧ c ≤ 90) ∨ (97 ≤ c ∧ c ≤ 122)), digit := decide (48 ≤ c ∧ c ≤ 57),
+    space := c == 32, lower := asciiLower c, fold := if 97 ≤ c ∧ c ≤ 122 then c - 32 else c }
+
+open BW.Proofs.LexPrinted in
+/-- Non-vacuity: `"a\\\\"@[]` (an ID ending with a backslash) and `"a"^^type:text` meet the hypotheses. -/
+example : lex bqlLex (ar 34 :: ([ar 97, ar 92, ar 92] ++ ar 34 :: ar 64 :: ar 91 :: ([] ++ [ar 93]))) =
+    [(.PREDICATE, ar 34 :: ([ar 97, ar 92, ar 92] ++ ar 34 :: ar 64 :: ar 91 :: ([] ++ [ar 93]))), (.EOF, [])] :=
+  printed_predicate_is_one_token (ar 34) (ar 34) (ar 64) (ar 91) (ar 93) [ar 97, ar 92, ar 92] []
+    ⟨rfl, rfl, rfl⟩ rfl ⟨rfl, rfl, rfl⟩ ⟨rfl, rfl, rfl⟩ ⟨rfl, rfl, rfl⟩ rfl
+    (PBody.plain _ _ (by decide) (PBody.pair _ _ _ rfl rfl PBody.nil))
+    (by intro r hr; simp only [List.mem_cons, List.not_mem_nil, or_false] at hr; rcases hr with e | e | e <;> subst e <;>
+          exact ⟨fun _ => rfl, fun h => absurd h (by decide)⟩)
+    (by intro x hx; cases hx) (by decide)
+
+open BW.Proofs.LexPrinted in
+example : lex bqlLex (ar 34 :: ([ar 97] ++ ar 34 :: ([ar 94, ar 94, ar 116, ar 121, ar 112, ar 101, ar 58] ++ [ar 116, ar 101, ar 120, ar 116]))) =
+    [(.LITERAL, ar 34 :: ([ar 97] ++ ar 34 :: ([ar 94, ar 94, ar 116, ar 121, ar 112, ar 101, ar 58] ++ [ar 116, ar 101, ar 120, ar 116]))), (.EOF, [])] :=
+  printed_literal_is_one_token (ar 34) (ar 34) [ar 97] [ar 94, ar 94, ar 116, ar 121, ar 112, ar 101, ar 58] [ar 116, ar 101, ar 120, ar 116]
+    ⟨rfl, rfl, rfl⟩ rfl ⟨rfl, rfl, rfl⟩
+    (by intro x hx; simp only [List.mem_singleton] at hx; subst hx; exact ⟨⟨fun _ => rfl, fun h => absurd h (by decide)⟩, by decide⟩)
+    (by intro x hx; simp only [List.getLast?_singleton, Option.some.injEq] at hx; subst hx; decide)
+    (by decide) (by decide) (by decide) (by decide) (by decide)
+
 end BW.Props.C16
 
 #print axioms BW.Props.C16.tables_wf
@@ -129,3 +203,8 @@ end BW.Props.C16
 #print axioms BW.Props.C16.equalFold_fold_only
 #print axioms BW.Props.C16.kw_case_insensitive
 #print axioms BW.Props.C16.ws_invariant
+#print axioms BW.Props.C16.printed_binding_is_one_token
+#print axioms BW.Props.C16.printed_node_is_one_token
+#print axioms BW.Props.C16.blank_node_is_one_token
+#print axioms BW.Props.C16.printed_predicate_is_one_token
+#print axioms BW.Props.C16.printed_literal_is_one_token
